@@ -37,6 +37,9 @@ class DataTensor(Tensor):
             requires_grad = data.requires_grad
         if pin_memory:
             data = data.pin_memory()
+        if requires_grad and data.requires_grad:
+            # Tensor._make_subclass() detaches 'data' from the autograd graph: keep the graph of tensors which require grad
+            return data.as_subclass(cls)
         return Tensor._make_subclass(cls, data, requires_grad)
 
     def __init__(
